@@ -14,7 +14,7 @@ func init() {
 		ID:    "C02",
 		Level: "exploration",
 		Rule: "inputs = atom catalogue, /repo testdata, llvm-stress programs, generated modules and, for each of them, W6 respellings (hex integers, unsigned-decimal spellings of negative integers, hex floats, redundantly quoted names, comments/blank lines, shuffled definitions); for every input x the parser accepts: y=print(parse x) must be accepted, print(parse y) must equal y byte for byte, and the object graphs of parse(x) and parse(y) must serialise identically (identity-bearing objects in bijection, the rest by value). " +
-			"llir-only: 20 hand-written inputs LLVM 14 rejects and the parser may accept (attribute-group spelling of the alignment in a function header, out-of-range and inexact decimal floats, hexadecimal doubles that are not values of half/float, operand or callee type text disagreeing with the definition, a named void call, out-of-range integer literals, repeated switch cases ...) go through the same three comparisons: the property quantifies over every input the parser accepts. " +
+			"llir-only: 27 hand-written inputs LLVM 14 rejects and the parser may accept (attribute-group spelling of the alignment in a function header, out-of-range and inexact decimal floats, hexadecimal doubles that are not values of half/float, operand or callee type text disagreeing with the definition, a named void call, out-of-range integer literals, repeated switch cases ...) go through the same three comparisons: the property quantifies over every input the parser accepts. " +
 			"non-trivial = an accepted input whose printed form differs from the input text (a normalisation happened); distinct by digest of x",
 		Gen:           genC02,
 		MinNontrivial: 100,
@@ -65,8 +65,16 @@ func c02LlirOnly(r *fw.Rec) {
 		"float-decimal-subnormal":      "@o = global float 1.0e-40\n",
 		"half-decimal-subnormal":       "@p = global half 0.00000001\n",
 		// the type written in front of an operand disagrees with its definition
-		"operand-type-text-disagrees": "define i32 @f(i32* %p) {\n  %r = atomicrmw add i64* %p, i64 1 seq_cst\n  %s = add i64 %r, 1\n  ret i64 %s\n}\n",
-		"callee-type-text-disagrees":  "declare i32 @g()\ndefine i64 @f() {\n  %r = call i64 @g()\n  ret i64 %r\n}\n",
+		"operand-type-text-disagrees":                "define i32 @f(i32* %p) {\n  %r = atomicrmw add i64* %p, i64 1 seq_cst\n  %s = add i64 %r, 1\n  ret i64 %s\n}\n",
+		"callee-type-text-disagrees":                 "declare i32 @g()\ndefine i64 @f() {\n  %r = call i64 @g()\n  ret i64 %r\n}\n",
+		"variadic-callee-type-text-disagrees":        "declare i32 @printf(i8*, ...)\ndefine i64 @f(i8* %s) {\n  %r = call i64 (i8*, ...) @printf(i8* %s)\n  ret i64 %r\n}\n",
+		"variadic-invoke-callee-type-text-disagrees": "declare i32 @pf(i8*, ...)\ndefine i64 @f(i8* %s) personality i8* null {\n  %r = invoke i64 (i8*, ...) @pf(i8* %s) to label %ok unwind label %bad\nok:\n  ret i64 %r\nbad:\n  %l = landingpad { i8*, i32 } cleanup\n  ret i64 0\n}\n",
+		"variadic-callee-param-text-disagrees":       "declare i32 @printf(i8*, ...)\ndefine i32 @f(i16* %s) {\n  %r = call i32 (i16*, ...) @printf(i16* %s)\n  ret i32 %r\n}\n",
+		// an alias whose typed aliasee disagrees with the content type of the alias
+		"alias-typed-cast-aliasee-disagrees":   "@g = global i16 0\n@a = alias i8, i32* bitcast (i16* @g to i32*)\n",
+		"alias-typed-gep-aliasee-disagrees":    "@g = global [2 x i16] zeroinitializer\n@a = alias i8, i16* getelementptr ([2 x i16], [2 x i16]* @g, i32 0, i32 1)\n",
+		"alias-typed-global-aliasee-disagrees": "@g = global i16 0\n@a = alias i8, i16* @g\n",
+		"ifunc-typed-resolver-disagrees":       "define i8* @r() {\n  ret i8* null\n}\n@i = ifunc void (), i8* ()* @r\n",
 		// a named void call
 		"named-void-call": "declare void @g()\ndefine void @f() {\n  %x = call void @g()\n  ret void\n}\n",
 		// parameter attributes LLVM wants on pointers only
